@@ -103,6 +103,7 @@ type wobj struct {
 	peerUDP    *net.UDPAddr
 	dgramsSent [][]byte // datagrams the peer sent, not yet read
 	twoInFlight bool
+	broken      bool // descriptor replaced underneath (C03): epoll_ctl fails for it
 }
 
 func (o *wobj) name() string { return fmt.Sprintf("o%d:%s", o.id, o.kind) }
@@ -137,6 +138,7 @@ type world struct {
 	batchMulti, crossTouch, bothDirs, faultWhileDeferred, deepIssue, wouldBlock bool
 	multiSegment                                                               bool
 	cleanup                                                                    []func()
+	postHook                                                                   func(from string)
 }
 
 type wtimer struct {
@@ -224,11 +226,15 @@ func (w *world) destroy(o *wobj) {
 		w.closeObj(o, "end")
 	}
 	if o.peer >= 0 && o.peerGone != "closed" && o.peerGone != "reset" {
-		_ = syscall.Close(o.peer)
+		if o.kind.tcp() {
+			sysx.Reset(o.peer) // no TIME_WAIT: thousands of cases per minute would exhaust the ephemeral ports
+		} else {
+			_ = syscall.Close(o.peer)
+		}
 		o.peer = -1
 	}
 	for _, c := range o.clients {
-		_ = syscall.Close(c)
+		sysx.Reset(c)
 	}
 	o.clients = nil
 	for _, c := range o.accepted {
@@ -393,6 +399,9 @@ func (w *world) newOp(o *wobj, kind string, size int, prog []whop) *wop {
 func (w *world) canStart(o *wobj, kind string) bool {
 	if o.closed {
 		return false
+	}
+	if o.broken && w.ioc.Dispatched < sonic.MaxCallbackDispatch {
+		return false // only the registration path is exercised on a replaced descriptor
 	}
 	switch kind {
 	case "read", "readAll":
@@ -659,12 +668,16 @@ func (w *world) runHops(p *wop) {
 			w.startOp(o, ks[h.Size%len(ks)], h.Size, nil, from)
 		case "close":
 			w.closeObj(o, from)
+		case "post":
+			if w.postHook != nil {
+				w.postHook(from)
+			}
 		}
 	}
 }
 
 func (w *world) cancelObj(o *wobj, from string) {
-	if o.closed || o.st == nil {
+	if o.closed || o.st == nil || o.broken {
 		return
 	}
 	was := []*wop{}
@@ -1052,3 +1065,10 @@ func (w *world) checkNow() {
 
 var _ = io.EOF
 var _ = time.Now
+
+func sysxWaitReadable(fd, ms int) bool {
+	if fd < 0 {
+		return false
+	}
+	return sysx.WaitReadable(fd, ms)
+}
